@@ -598,7 +598,11 @@ type c13Gen_ struct {
 
 var c13Exts = []string{"txt", "json", "bam", "h5"}
 var c13OutNames = []string{"report.html", "My Out", "data", "x.tar.gz", "Résumé", "o-1"}
-var c13Keys = []string{"k", "a1", "sample one", "Z", "0", "x.y", "é", "-"}
+// legal file names all of them; some need escaping when written as JSON
+// object keys (control characters, DEL, quotes, backslash, <, >, &, a
+// non-printable code point above U+FFFF)
+var c13Keys = []string{"k", "a1", "sample one", "Z", "0", "x.y", "é", "-",
+	"ctl\x01key", "del\x7fkey", "q\"uo\\te", "tab\there", "a<b>&c", "tag\U000e0001x", "bell\a"}
 var c13BadKeys = []string{"", ".", "..", "a/b", "/", "a\x00b"}
 
 func (g *c13Gen_) id() string {
